@@ -113,7 +113,7 @@ pub fn registry() -> Vec<Dyn> {
         EPairsCodecLearn, EPairsHuffmanU8,
         EColumnsMirrorU8, EColumnsMirrorU8Vec, EColumnsMirrorU8List, EColumnsString, EColumnsPairsString,
         EColumnsOwnedU8, EColumnsSliceU8, EColumnsColumns, EColumnsOptionString, EColumnsCollapsePairsString,
-        EStringPairsOwned, EColumnsVecU32
+        EStringPairsOwned, EColumnsVecU32, EColumnsHuffman, EColumnsStringDict
     );
     v
 }
